@@ -119,3 +119,38 @@ Proof.
     rewrite ntile_rows_closed by lia. apply map_ext_in. intros j Hj.
     unfold ntile_closed, ntile_spec. fold c. destruct (Z.gtb_spec b c); [lia|]. reflexivity.
 Qed.
+
+(* ---------- bucket sizes: bucket m holds the rows [start m, start m + size m), size = s+1 for the first `big`
+   buckets and s afterwards; so sizes differ by at most 1 and never increase ---------- *)
+Lemma div_eq_iff x d q : 0 < d -> (x / d = q <-> q * d <= x < (q + 1) * d).
+Proof.
+  intros Hd. pose proof (Z.div_mod x d ltac:(lia)) as E. pose proof (Z.mod_pos_bound x d Hd) as B. split.
+  - intros <-. nia.
+  - intros H. symmetry. apply (Z.div_unique x d q (x - q * d)); lia.
+Qed.
+
+Definition bucket_start (s big m : Z) : Z :=
+  if m - 1 <=? big then (m - 1) * (s + 1) else big * (s + 1) + (m - 1 - big) * s.
+Definition bucket_size (s big m : Z) : Z := if m <=? big then s + 1 else s.
+
+Theorem ntile_bucket_rows s big m x : 1 <= s -> 0 <= big -> 1 <= m -> 0 <= x ->
+  (ntile_closed s big x = m <-> bucket_start s big m <= x < bucket_start s big m + bucket_size s big m).
+Proof.
+  intros Hs Hb Hm Hx. unfold ntile_closed, bucket_start, bucket_size.
+  destruct (Z.ltb_spec x (big * (s + 1))) as [Hlt|Hge].
+  - (* inside the big buckets: x/(s+1) + 1 = m *)
+    assert (E : x / (s + 1) + 1 = m <-> (m - 1) * (s + 1) <= x < m * (s + 1)).
+    { pose proof (div_eq_iff x (s + 1) (m - 1) ltac:(lia)) as D.
+      replace ((m - 1 + 1) * (s + 1)) with (m * (s + 1)) in D by lia.
+      split; intros H; [apply D; lia|assert (x / (s + 1) = m - 1) by (apply D; exact H); lia]. }
+    rewrite E. destruct (Z.leb_spec (m - 1) big), (Z.leb_spec m big); nia.
+  - assert (E : big + (x - big * (s + 1)) / s + 1 = m <-> (m - 1 - big) * s <= x - big * (s + 1) < (m - big) * s).
+    { pose proof (div_eq_iff (x - big * (s + 1)) s (m - 1 - big) ltac:(lia)) as D.
+      replace ((m - 1 - big + 1) * s) with ((m - big) * s) in D by lia.
+      split; intros H; [apply D; lia|assert ((x - big * (s + 1)) / s = m - 1 - big) by (apply D; exact H); lia]. }
+    rewrite E. destruct (Z.leb_spec (m - 1) big), (Z.leb_spec m big); nia.
+Qed.
+
+Theorem ntile_sizes_nonincreasing s big m : 1 <= s -> 0 <= big -> 1 <= m ->
+  bucket_size s big (m + 1) <= bucket_size s big m <= bucket_size s big (m + 1) + 1.
+Proof. intros. unfold bucket_size. destruct (Z.leb_spec (m + 1) big), (Z.leb_spec m big); lia. Qed.
